@@ -47,6 +47,7 @@ type Shared struct {
 	reachSat    map[string]bool
 	pending     []*FinalQuery
 	notes       map[string]bool
+	stubs       map[string]bool
 	boundsUsed  map[string]int
 	optionsUsed map[string]bool
 
@@ -63,6 +64,7 @@ type Shared struct {
 	globals map[*ssa.Global]Val
 
 	pathSeq int64
+	objSeq  int64
 
 	unwind               int // max symbolic-branch visits per block per frame
 	sliceL               int // max length of havocked slices
@@ -71,6 +73,7 @@ type Shared struct {
 	noMerge              bool
 	havocArith           bool
 	overflowAsObligation bool
+	noRegion             bool
 }
 
 // Exec: one exploration worker (own solver process, own statistics).
@@ -83,6 +86,9 @@ type Exec struct {
 	merges        int
 	mergeFallback int
 	initMode      bool
+	finishFn      func(outcome)
+	pendingForks  []*State
+	nameSink      *[]string // during a state merge: definitions of names given to large merged terms
 }
 
 func (e *Exec) zero(t types.Type) Val {
@@ -364,9 +370,9 @@ func (e *Exec) store(st *State, p Ptr, v Val) {
 	st.Heap[p.ID] = setPath(e.heapGet(st, p.ID), p.Path, v)
 }
 func (e *Exec) alloc(st *State, v Val) Ptr {
-	st.NextObj++
-	st.Heap[st.NextObj] = v
-	return Ptr{ID: st.NextObj}
+	id := int(atomic.AddInt64(&e.objSeq, 1)) // ids are unique across all states of a harness run (needed for state merging)
+	st.Heap[id] = v
+	return Ptr{ID: id}
 }
 
 type envInvoke struct{ Method string }
@@ -442,6 +448,9 @@ func (e *Exec) run(entry *ssa.Function, base *State, workers []*Exec, onDone fun
 		go func(w *Exec) {
 			defer wg.Done()
 			finish := func(o outcome) {
+				if !w.initMode && o.kind != "infeasible" {
+					w.flushAsserts(o.st)
+				}
 				o.st.ID = int(atomic.AddInt64(&w.pathSeq, 1))
 				cmu.Lock()
 				counts[o.kind]++
@@ -471,6 +480,7 @@ func (e *Exec) run(entry *ssa.Function, base *State, workers []*Exec, onDone fun
 
 // explore runs one state depth-first; forks are pushed to the shared queue except one that is continued locally.
 func (e *Exec) explore(s *State, q *workQ, finish func(outcome)) {
+	e.finishFn = finish
 	defer func() {
 		if r := recover(); r != nil {
 			why := fmt.Sprint(r)
@@ -521,6 +531,9 @@ func (e *Exec) explore(s *State, q *workQ, finish func(outcome)) {
 			k := "ok"
 			if s.Panic != nil {
 				k = "panic"
+				if e.trace && !e.initMode {
+					fmt.Fprintf(os.Stderr, "path ended in panic: %v\n", s.Panic.V)
+				}
 			}
 			if s.Reached["<assume-false>"] {
 				k = "infeasible"
@@ -724,6 +737,17 @@ func (e *Exec) step(s *State) ([]*State, bool) {
 		if c.S != "true" && c.S != "false" {
 			e.symBranchVisit(f)
 		}
+		if c.S != "true" && c.S != "false" && e.regionEnabled(f.Fn) {
+			if J := cfgOf(f.Fn).ipdom[f.Blk]; J != nil {
+				basePC := append([]string{}, s.PC...)
+				nAs, depth, fn := len(s.Asserts), len(s.Frames), f.Fn
+				arms := e.fork(s, c.S, func(t *State) { e.jump(top(t), tb) }, func(t *State) { e.jump(top(t), fb) })
+				if len(arms) == 2 {
+					return e.ifRegion(arms, fn, J, depth, basePC, nAs), false
+				}
+				return arms, false
+			}
+		}
 		return e.fork(s, c.S, func(t *State) { e.jump(top(t), tb) }, func(t *State) { e.jump(top(t), fb) }), false
 	case *ssa.Return:
 		var rv Val
@@ -812,6 +836,9 @@ func (e *Exec) step(s *State) ([]*State, bool) {
 		f.Regs[x] = Closure{Fn: x.Fn.(*ssa.Function), Binds: b}
 	case *ssa.TypeAssert:
 		iv := e.get(s, f, x.X).(IfaceV)
+		if iv.NilIf != "" {
+			return e.resolveIface(s, f, x.X, iv), false
+		}
 		ok := iv.T != nil && types.Identical(iv.T, x.AssertedType)
 		_, isIface := x.AssertedType.Underlying().(*types.Interface)
 		if isIface {
@@ -1580,6 +1607,18 @@ func (e *Exec) binop(s *State, x *ssa.BinOp, a, b Val) Val {
 			panic("float binop " + x.Op.String())
 		}
 		if x.Op == token.EQL || x.Op == token.NEQ {
+			if ia, ok := a.(IfaceV); ok && ia.NilIf != "" {
+				if ib, ok := b.(IfaceV); ok && ib.T == nil {
+					return mkEq(ia.NilIf)
+				}
+				panic("comparison of a merged (maybe-nil) interface with a non-nil value")
+			}
+			if ib, ok := b.(IfaceV); ok && ib.NilIf != "" {
+				if ia, ok := a.(IfaceV); ok && ia.T == nil {
+					return mkEq(ib.NilIf)
+				}
+				panic("comparison of a merged (maybe-nil) interface with a non-nil value")
+			}
 			if g, ok := a.(GetResult); ok {
 				if nb, isN := isNilish(b); isN && nb {
 					return mkEq(tNot(g.presentTerm()))
@@ -1732,3 +1771,36 @@ func isNilish(v Val) (bool, bool) {
 }
 
 var _ = strings.Contains
+
+// regionEnabled: state merging applies to comdex code, not to the harness's own control flow.
+func (e *Exec) regionEnabled(fn *ssa.Function) bool {
+	if e.noRegion || e.initMode {
+		return false
+	}
+	for p := fn; p != nil; p = p.Parent() {
+		n := p.Name()
+		if strings.HasPrefix(n, "VP_") || strings.HasPrefix(n, "vp") {
+			return false
+		}
+		if p.Pkg != nil && strings.HasSuffix(p.Pkg.Pkg.Path(), "/zzvp") {
+			return false
+		}
+	}
+	return true
+}
+
+// resolveIface forks on the nil-ness of a merged interface value held in the register of operand v and re-executes.
+func (e *Exec) resolveIface(s *State, f *Frame, v ssa.Value, iv IfaceV) []*State {
+	if _, isReg := f.Regs[v]; !isReg {
+		panic("maybe-nil interface outside a register")
+	}
+	return e.fork(s, iv.NilIf, func(t *State) {
+		tf := top(t)
+		tf.Regs[v] = IfaceV{}
+		tf.Idx--
+	}, func(t *State) {
+		tf := top(t)
+		tf.Regs[v] = IfaceV{T: iv.T, V: iv.V}
+		tf.Idx--
+	})
+}
